@@ -1,6 +1,7 @@
 package main
 
 import (
+	"regexp"
 	"crypto/sha256"
 	"encoding/json"
 	"flag"
@@ -126,7 +127,7 @@ func hashStr(s string) string {
 }
 
 func allPatterns() []string {
-	return []string{vc.ModPath, vc.ModPath + "/pkg/..."}
+	return []string{vc.ModPath, vc.ModPath + "/pkg/...", vc.ModPath + "/pp"}
 }
 
 func checkCmd(args []string) {
@@ -322,6 +323,15 @@ func finish(c *Ctx, pd *propDef) int {
 				knownItems = append(knownItems, it)
 			}
 			continue
+		}
+		if !inBase && isContractClause(it.Name) {
+			// a new instance (new return site, new store, new call) of a contract clause all of whose
+			// instances were discharged on the pinned tree
+			if ok, seen := clauseAllDischarged(c.Baseline, clauseKey(it.Name)); seen && ok {
+				regressed[it.Name] = "new instance of a contract clause that held at every site on the pinned tree"
+				needReplay = append(needReplay, it)
+				continue
+			}
 		}
 		switch {
 		case inBase && be.Status == "discharged" && be.Hash == it.Hash:
@@ -590,4 +600,35 @@ func printable(s string) string {
 		}
 	}
 	return sb.String()
+}
+
+var clauseSuffixRe = regexp.MustCompile(`(#\d+|~\d+)+$`)
+
+func clauseKey(name string) string { return clauseSuffixRe.ReplaceAllString(name, "") }
+
+func isContractClause(name string) bool {
+	i := strings.Index(name, "/")
+	if i < 0 {
+		return false
+	}
+	rest := name[i+1:]
+	for _, k := range []string{"post@", "at-eval@", "pre@", "trace@", "on-call@", "on-store@", "on-map-update@", "no-store@", "must-defer@", "full-loop@"} {
+		if strings.HasPrefix(rest, k) {
+			return true
+		}
+	}
+	return false
+}
+
+func clauseAllDischarged(base map[string]BaseEntry, key string) (all bool, seen bool) {
+	all = true
+	for n, be := range base {
+		if clauseKey(n) == key {
+			seen = true
+			if be.Status != "discharged" {
+				all = false
+			}
+		}
+	}
+	return
 }
